@@ -238,6 +238,44 @@ func c02Special() []refTree {
 			{Position: "components.schemas.Site", Kind: "schema", Form: "fragment", Shape: "mutual-cycle-across-files-" + kw, Ref: "ext/e.json#/components/schemas/B", Marker: "MARKB" + kw},
 		})
 	}
+	// cycles that pass through components that are nothing but a reference (aliases), visited before or after the object
+	for _, aliasName := range []string{"Alias", "Zalias"} {
+		for _, hops := range []int{1, 2} {
+			for _, across := range []bool{false, true} {
+				rootA := refRootSkeleton()
+				schemas := dig(rootA, "components", "schemas")
+				nodeRef := "#/components/schemas/Node"
+				files := map[string]gen.S{}
+				backRef := "#/components/schemas/" + aliasName
+				if across {
+					nodeRef = "ext/n.json#/components/schemas/Node"
+					backRef = "../root.json#/components/schemas/" + aliasName
+				}
+				node := gen.S{"type": "object", "title": "MARKCYCNODE", "properties": gen.S{"next": gen.S{"$ref": backRef}, "kids": gen.S{"type": "array", "items": gen.S{"$ref": backRef}}, "name": gen.S{"type": "string"}}}
+				if across {
+					files["w/ext/n.json"] = lib("n", gen.S{"Node": node})
+				} else {
+					schemas["Node"] = node
+				}
+				if hops == 1 {
+					schemas[aliasName] = gen.S{"$ref": nodeRef}
+				} else {
+					schemas[aliasName] = gen.S{"$ref": "#/components/schemas/" + aliasName + "2"}
+					schemas[aliasName+"2"] = gen.S{"$ref": nodeRef}
+				}
+				schemas["Site"] = gen.S{"$ref": "#/components/schemas/" + aliasName}
+				shape := fmt.Sprintf("cycle-through-alias-%s-hops%d-across=%v", aliasName, hops, across)
+				plans := []refPlan{
+					{Position: "components.schemas.Site", Kind: "schema", Form: "internal", Shape: shape, Ref: "#/components/schemas/" + aliasName, Marker: "MARKCYCNODE"},
+					{Position: "nestedpath:" + aliasName, Kind: "schema", Form: "internal", Shape: shape, Ref: schemas[aliasName].(gen.S)["$ref"].(string), Marker: "MARKCYCNODE"},
+					{Position: "nestedpath:Site/next", Kind: "schema", Form: "internal", Shape: shape, Ref: backRef, Marker: "MARKCYCNODE"},
+					{Position: "nestedpath:Site/kids/[]", Kind: "schema", Form: "internal", Shape: shape, Ref: backRef, Marker: "MARKCYCNODE"},
+					{Position: "nestedpath:Site/next/next", Kind: "schema", Form: "internal", Shape: shape, Ref: backRef, Marker: "MARKCYCNODE"},
+				}
+				mk(rootA, files, plans)
+			}
+		}
+	}
 	// diamond: two sites -> two hops -> one target
 	root := refRootSkeleton()
 	dig(root, "components", "schemas")["Site"] = gen.S{"$ref": "a/x.json#/components/schemas/X"}
@@ -487,6 +525,62 @@ func c02Negative() []refTree {
 			pos.plant(root, gen.S{"$ref": "#/components/" + wk.coll + "/Wrong"})
 			out = append(out, refTree{Root: "w/root.json", Files: map[string]string{"w/root.json": mustJSON(root)},
 				Plans: []refPlan{{Position: pos.name, Kind: pos.kind, Form: "internal", Shape: "direct", Ref: "#/components/" + wk.coll + "/Wrong", Fails: "wrong-kind:" + wk.name}}})
+		}
+	}
+	// a reference of the wrong kind that is met while its own target is being resolved (an object that names itself at a nested
+	// position of another kind), alone and followed, later in visiting order, by a reference into a document not loaded yet
+	type selfRef struct {
+		coll, kind string
+		obj        func(ref string) gen.S
+	}
+	selfRefs := []selfRef{
+		{"responses", "response", func(ref string) gen.S {
+			return gen.S{"description": "d", "content": gen.S{"application/json": gen.S{"schema": gen.S{"$ref": ref}}}}
+		}},
+		{"responses", "response", func(ref string) gen.S {
+			return gen.S{"description": "d", "headers": gen.S{"H": gen.S{"$ref": ref}}}
+		}},
+		{"parameters", "parameter", func(ref string) gen.S {
+			return gen.S{"name": "p", "in": "query", "schema": gen.S{"$ref": ref}}
+		}},
+		{"parameters", "parameter", func(ref string) gen.S {
+			return gen.S{"name": "p", "in": "query", "schema": gen.S{"type": "string"}, "examples": gen.S{"e": gen.S{"$ref": ref}}}
+		}},
+		{"headers", "header", func(ref string) gen.S { return gen.S{"description": "d", "schema": gen.S{"$ref": ref}} }},
+		{"requestBodies", "requestBody", func(ref string) gen.S {
+			return gen.S{"description": "d", "content": gen.S{"application/json": gen.S{"schema": gen.S{"$ref": ref}}}}
+		}},
+		{"requestBodies", "requestBody", func(ref string) gen.S {
+			return gen.S{"description": "d", "content": gen.S{"application/json": gen.S{"schema": gen.S{"type": "string"}, "examples": gen.S{"e": gen.S{"$ref": ref}}}}}
+		}},
+	}
+	for si, sr := range selfRefs {
+		for _, form := range []string{"whole-file", "internal"} {
+			for _, later := range []bool{false, true} {
+				root := refRootSkeleton()
+				files := map[string]string{}
+				ref := "#/components/" + sr.coll + "/Self"
+				if form == "whole-file" {
+					// (the file sits beside the root and is named the same way from both places: a whole file has no kind of its
+					// own, what tells the loader that it is used as two kinds is meeting the same reference while it is in progress)
+					ref = "self.json"
+					dig(root, "components", sr.coll)["Self"] = gen.S{"$ref": ref}
+					files["w/self.json"] = mustJSON(sr.obj(ref))
+				} else {
+					dig(root, "components", sr.coll)["Self"] = sr.obj(ref)
+				}
+				why := "wrong-kind-met-in-progress"
+				if later {
+					why += "-then-reference-into-another-document"
+					dig(root, "components", "schemas")["ZLater"] = gen.S{"$ref": "late/other.json#/components/schemas/S"}
+					dig(root, "paths")["/zlater"] = gen.S{"$ref": "late/paths.json#/paths/~1x"}
+					files["w/late/other.json"] = mustJSON(gen.S{"openapi": "3.0.3", "info": gen.S{"title": "o", "version": "1"}, "paths": gen.S{}, "components": gen.S{"schemas": gen.S{"S": gen.S{"type": "string"}}}})
+					files["w/late/paths.json"] = mustJSON(gen.S{"openapi": "3.0.3", "info": gen.S{"title": "p", "version": "1"}, "paths": gen.S{"/x": targetObject("pathItem", "MARKLATE")}})
+				}
+				files["w/root.json"] = mustJSON(root)
+				out = append(out, refTree{Root: "w/root.json", Files: files, External: form == "whole-file" || later,
+					Plans: []refPlan{{Position: fmt.Sprintf("components.%s.Self#%d", sr.coll, si), Kind: sr.kind, Form: form, Shape: "self-reference-at-a-position-of-another-kind", Ref: ref, Fails: why}}})
+			}
 		}
 	}
 	return out
